@@ -14,4 +14,4 @@ echo "probe $H rc=$RC wall=$((END-START))s"
 grep -E "^error|VERIFICATION|Runtime Solver|Runtime decision|SUMMARY|\*\* [0-9]+ of|out of memory|SATISFIED|UNSATISFIABLE" "$S/probe.log" | head -40
 grep -A3 "Status: FAILURE" "$S/probe.log" | grep -E "Description|Location" | head -30
 cp "$S/probe.log" "/tmp/probe-${H##*::}.log"
-cd /tmp && rm -rf "$S"
+cd /tmp; if [ -z "$KEEP" ]; then rm -rf "$S"; else echo "scratch kept: $S"; fi
